@@ -550,6 +550,25 @@ def shiftMI : List Nat → List Nat → List Nat → List Nat → List Nat
 
 end Nd
 
+/-! ## DFT over a subset of the axes -/
+
+section DFTAxes
+variable {α : Type}
+/-- unnormalised DFT over a SUBSET of the axes of a row-major array of shape `dims` (`fftn(x, axes=…)`):
+    `ws[a] = some ω` on a transformed axis (root `ω`), `none` on an axis that is left alone -/
+def dftAxes [Add α] [Mul α] [Zero α] [One α] : List Nat → List (Option α) → V α → V α
+  | n :: ds, some w :: ws, x => fun p =>
+      sumTo n (fun j => dftAxes ds ws (slab (prodL ds) j x) (p % prodL ds) * dftEval.npow w (j * (p / prodL ds)))
+  | _ :: ds, none :: ws, x => fun p => dftAxes ds ws (slab (prodL ds) (p / prodL ds) x) (p % prodL ds)
+  | _, _, x => x
+
+/-- number of points of the transform: product of the sizes of the transformed axes -/
+def dftAxesSize {β : Type} : List Nat → List (Option β) → Nat
+  | n :: ds, some _ :: ws => n * dftAxesSize ds ws
+  | _ :: ds, none :: ws => dftAxesSize ds ws
+  | _, _ => 1
+end DFTAxes
+
 /-! ## N-d linear convolution and its output modes -/
 
 section ConvNd
